@@ -20,6 +20,7 @@
 
 use linfa::dataset::{DatasetBase, TargetDim};
 use linfa::traits::{Fit, PredictInplace};
+use linfa::ParamGuard;
 use lvmc_core::{close, guarded, json, par_sweep, Ctx, Level, Value, Violation};
 use ndarray::{
     Array, Array1, Array2, ArrayBase, ArrayD, ArrayView, ArrayView2, ArrayViewMut, ArrayViewMut2, Axis, Data, DataMut,
@@ -82,13 +83,17 @@ struct Case {
     #[serde(default)]
     menu: String, // cv: "full" = every (model, fold) for fit and eval faults; "short" = none, two end points, double fault
     #[serde(default)]
+    guarded: bool, // cv / iter_fold_guard: the candidate models are UNCHECKED hyper-parameter sets (ParamGuard blanket Fit)
+    #[serde(default)]
+    guard: Option<Vec<u8>>, // per model: 0 = valid, 1 = ParamError::ZeroRate, 2 = ParamError::NegativeDepth; None = enumerate
+    #[serde(default)]
     styles: String, // cv: "" / "full" = every model overwrites every prediction; "mixed" = model 0 full, the others sparse; "all_sparse"
     #[serde(default)]
     consume: Option<usize>, // iter_fold: items taken before the iterator is dropped; None = {all, 0}
 }
 
-const FOLD_KINDS: [&str; 9] = ["owned", "view", "view_strided", "view_cols", "owned_forder", "view_reversed", "view_transposed", "owned_sliced", "owned_sliced_cols"];
-const ITER_KINDS: [&str; 9] = ["owned", "viewmut", "viewmut_window", "viewmut_strided", "owned_forder", "owned_sliced", "viewmut_reversed", "viewmut_transposed", "owned_sliced_cols"];
+const FOLD_KINDS: [&str; 10] = ["owned", "view", "view_strided", "view_cols", "owned_forder", "view_reversed", "view_transposed", "owned_sliced", "owned_sliced_cols", "view_reversed_cols"];
+const ITER_KINDS: [&str; 10] = ["owned", "viewmut", "viewmut_window", "viewmut_strided", "owned_forder", "owned_sliced", "viewmut_reversed", "viewmut_transposed", "owned_sliced_cols", "viewmut_reversed_cols"];
 const CV_KINDS: [&str; 3] = ["owned", "viewmut", "viewmut_window"];
 /// cross validation on an owned array sliced out of a larger allocation (with weights): modest subset
 const CV_KINDS_SUBSET: [&str; 1] = ["owned_sliced"];
@@ -100,6 +105,8 @@ const CV_KINDS_SUBSET: [&str; 1] = ["owned_sliced"];
 ///  cols       a column range of a wider parent (records: columns 1..=f of f+2; targets alike)
 ///  window     rows GUARD..GUARD+n of a parent with guard rows; contiguous standard layout, offset start
 ///  reversed   reversed-row view / array of a parent holding the rows in reverse order (negative stride)
+///  reversed_cols reversed FEATURE axis (`slice(s![.., ..;-1])`) of a parent with the columns in reverse
+///             order; 2-d targets likewise, 1-d targets a reversed view of a reversed copy
 ///  transposed transposed view of a feature-major parent (f x n, t x n): column-major strides
 fn family(kind: &str) -> &'static str {
     match kind {
@@ -110,6 +117,7 @@ fn family(kind: &str) -> &'static str {
         "viewmut_window" | "owned_sliced" => "window",
         "view_reversed" | "viewmut_reversed" => "reversed",
         "view_transposed" | "viewmut_transposed" => "transposed",
+        "view_reversed_cols" | "viewmut_reversed_cols" => "reversed_cols",
         _ => panic!("unknown storage kind {}", kind),
     }
 }
@@ -289,17 +297,18 @@ fn build_parents<F: Elem, E: Elem>(c: &Case) -> (Array2<F>, ArrayD<E>) {
     let two_d = c.tix == 2;
     let fam = family(&c.kind);
     // tag at the logical position (r, j) of the parent BEFORE transposition
-    let tag_at = |r: usize, j: usize, width: usize, real: &dyn Fn(usize, usize) -> u32, poison: u32| -> u32 {
+    let tag_at = |r: usize, j: usize, width: usize, width_is_cols: bool, real: &dyn Fn(usize, usize) -> u32, poison: u32| -> u32 {
         match fam {
             "strided" => if r % 2 == 0 { real(r / 2, j) } else { decoy(r, j) + poison },
             "cols" => if j >= 1 && j <= width { real(r, j - 1) } else { decoy(r, j) + poison },
             "window" => if r >= GUARD && r < GUARD + n { real(r - GUARD, j) } else { decoy(r, j) + poison },
             "reversed" => real(n - 1 - r, j),
+            "reversed_cols" => if width_is_cols { real(r, width - 1 - j) } else { real(n - 1 - r, j) },
             _ => real(r, j),
         }
     };
-    let recv = |r: usize, j: usize| -> F { F::from_tag(tag_at(r, j, f, &rec_tag, 0)) };
-    let tgtv = |r: usize, cc: usize| -> E { E::from_tag(tag_at(r, cc, if two_d { t } else { 1 }, &tgt_tag, 20000)) };
+    let recv = |r: usize, j: usize| -> F { F::from_tag(tag_at(r, j, f, true, &rec_tag, 0)) };
+    let tgtv = |r: usize, cc: usize| -> E { E::from_tag(tag_at(r, cc, if two_d { t } else { 1 }, two_d, &tgt_tag, 20000)) };
     let (prow, pcol, tcol, t2d) = match fam {
         "strided" => (2 * n, f, t, two_d),
         "cols" => (n, f + 2, if two_d { t + 1 } else { 2 }, true),
@@ -330,6 +339,7 @@ fn narrow_rec<S: RawData>(v: &mut ArrayBase<S, Ix2>, c: &Case) {
         "cols" => v.slice_axis_inplace(Axis(1), Slice::from(1..c.f + 1)),
         "window" => v.slice_axis_inplace(Axis(0), Slice::from(GUARD..GUARD + c.n)),
         "reversed" => v.invert_axis(Axis(0)),
+        "reversed_cols" => v.invert_axis(Axis(1)),
         "transposed" => v.swap_axes(0, 1),
         _ => {}
     }
@@ -347,6 +357,10 @@ fn narrow_tgt<S: RawData, I: TargetDim>(mut v: ArrayBase<S, IxDyn>, c: &Case) ->
         }
         "window" => v.slice_axis_inplace(Axis(0), Slice::from(GUARD..GUARD + c.n)),
         "reversed" => v.invert_axis(Axis(0)),
+        "reversed_cols" => {
+            let ax = if v.ndim() == 2 { 1 } else { 0 };
+            v.invert_axis(Axis(ax))
+        }
         "transposed" => {
             if v.ndim() == 2 {
                 v.swap_axes(0, 1)
@@ -812,6 +826,33 @@ fn run_iter_fold<F: Elem, E: Elem, I: TargetDim>(c: &Case, viols: &mut Vec<Viola
 enum MockError {
     Linfa(linfa::Error),
     Fit(String),
+    Param(ParamError),
+}
+/// Error of the hyper-parameter check of `GuardedParams`: one distinguishable variant per failure.
+/// `MockError: From<ParamError>` and `MockError: From<linfa::Error>` give DIFFERENT variants, so a
+/// checking error that is re-packed on its way out of cross validation is visible.
+#[derive(Debug, Clone, PartialEq)]
+enum ParamError {
+    ZeroRate { model: usize },
+    NegativeDepth { model: usize },
+}
+impl std::fmt::Display for ParamError {
+    fn fmt(&self, f: &mut std::fmt::Formatter<'_>) -> std::fmt::Result {
+        write!(f, "{:?}", self)
+    }
+}
+impl std::error::Error for ParamError {}
+impl From<ParamError> for MockError {
+    fn from(e: ParamError) -> Self {
+        MockError::Param(e)
+    }
+}
+fn param_error(code: u8, model: usize) -> Option<ParamError> {
+    match code {
+        1 => Some(ParamError::ZeroRate { model }),
+        2 => Some(ParamError::NegativeDepth { model }),
+        _ => None,
+    }
 }
 impl std::fmt::Display for MockError {
     fn fmt(&self, f: &mut std::fmt::Formatter<'_>) -> std::fmt::Result {
@@ -888,6 +929,57 @@ struct MockModel {
     fp: u64,
     t: usize,
     sparse: bool,
+}
+
+/// Unchecked hyper-parameters: `Fit` comes from linfa's blanket impl for `ParamGuard`
+/// (src/param_guard.rs): check_ref()? then fit on the checked parameters (= `MockParams`).
+struct GuardedParams {
+    inner: MockParams,
+    bad: Option<ParamError>,
+}
+impl ParamGuard for GuardedParams {
+    type Checked = MockParams;
+    type Error = ParamError;
+    fn check_ref(&self) -> Result<&MockParams, ParamError> {
+        match &self.bad {
+            Some(e) => Err(e.clone()),
+            None => Ok(&self.inner),
+        }
+    }
+    fn check(self) -> Result<MockParams, ParamError> {
+        match self.bad {
+            Some(e) => Err(e),
+            None => Ok(self.inner),
+        }
+    }
+}
+fn make_guarded(c: &Case, fault: &FaultSpec, guard: &[u8], log: &Rc<RefCell<Vec<FitCall>>>) -> Vec<GuardedParams> {
+    make_params(c, fault, log)
+        .into_iter()
+        .enumerate()
+        .map(|(i, inner)| GuardedParams { inner, bad: param_error(guard.get(i).cloned().unwrap_or(0), i) })
+        .collect()
+}
+fn guard_menu(m: usize) -> Vec<Vec<u8>> {
+    let mut v = vec![vec![0u8; m]];
+    for p in 0..m {
+        for code in 1..=2u8 {
+            let mut g = vec![0u8; m];
+            g[p] = code;
+            v.push(g);
+        }
+    }
+    if m >= 2 {
+        let mut g = vec![0u8; m];
+        g[0] = 1;
+        g[m - 1] = 2;
+        v.push(g);
+    }
+    v
+}
+/// The errors that may surface for a guard assignment, written down absolutely (not through any `From`).
+fn guard_errors(guard: &[u8]) -> Vec<String> {
+    guard.iter().enumerate().filter_map(|(i, &code)| param_error(code, i)).map(|e| format!("{:?}", MockError::Param(e))).collect()
 }
 
 impl<'c, I: TargetDim> Fit<ArrayView2<'c, f64>, ArrayView<'c, f64, I>, MockError> for MockParams {
@@ -1052,18 +1144,20 @@ fn make_params(c: &Case, fault: &FaultSpec, log: &Rc<RefCell<Vec<FitCall>>>) -> 
         .collect()
 }
 
-fn cv_call<I: TargetDim, D: DataMut<Elem = f64>, S: DataMut<Elem = f64>>(
+fn cv_call_with<I: TargetDim, D: DataMut<Elem = f64>, S: DataMut<Elem = f64>, M>(
     ds: &mut DatasetBase<ArrayBase<D, Ix2>, ArrayBase<S, I>>,
     c: &Case,
     fault: &FaultSpec,
-    fit_log: &Rc<RefCell<Vec<FitCall>>>,
+    params: &[M],
     eval_log: &EvalLog,
-) -> CvOutcome {
-    let params = make_params(c, fault, fit_log);
+) -> CvOutcome
+where
+    M: for<'c> Fit<ArrayView2<'c, f64>, ArrayView<'c, f64, I>, MockError, Object = MockModel>,
+{
     let one_d = I::NDIM == Some(1);
     let tcols = c.tcols;
     guarded(|| {
-        let r: Result<Array<f64, I>, MockError> = ds.cross_validate(c.k, &params, |pred: &Array<f64, I>, truth: &ArrayView<f64, I>| {
+        let r: Result<Array<f64, I>, MockError> = ds.cross_validate(c.k, params, |pred: &Array<f64, I>, truth: &ArrayView<f64, I>| {
             let v = eval_body(c, fault, eval_log, rows_f64(pred), rows_f64(truth))?;
             let sh: Vec<usize> = if one_d { vec![] } else { vec![tcols] };
             Ok(ArrayD::from_shape_vec(IxDyn(&sh), if one_d { vec![v[0]] } else { v })
@@ -1075,16 +1169,35 @@ fn cv_call<I: TargetDim, D: DataMut<Elem = f64>, S: DataMut<Elem = f64>>(
     })
 }
 
-fn cv_single_call<D: DataMut<Elem = f64>, S: DataMut<Elem = f64>>(
-    ds: &mut DatasetBase<ArrayBase<D, Ix2>, ArrayBase<S, Ix1>>,
+fn cv_call<I: TargetDim, D: DataMut<Elem = f64>, S: DataMut<Elem = f64>>(
+    ds: &mut DatasetBase<ArrayBase<D, Ix2>, ArrayBase<S, I>>,
     c: &Case,
     fault: &FaultSpec,
+    guard: &[u8],
     fit_log: &Rc<RefCell<Vec<FitCall>>>,
     eval_log: &EvalLog,
 ) -> CvOutcome {
-    let params = make_params(c, fault, fit_log);
+    if c.guarded {
+        let params = make_guarded(c, fault, guard, fit_log);
+        cv_call_with(ds, c, fault, &params, eval_log)
+    } else {
+        let params = make_params(c, fault, fit_log);
+        cv_call_with(ds, c, fault, &params, eval_log)
+    }
+}
+
+fn cv_single_call_with<D: DataMut<Elem = f64>, S: DataMut<Elem = f64>, M>(
+    ds: &mut DatasetBase<ArrayBase<D, Ix2>, ArrayBase<S, Ix1>>,
+    c: &Case,
+    fault: &FaultSpec,
+    params: &[M],
+    eval_log: &EvalLog,
+) -> CvOutcome
+where
+    M: for<'c> Fit<ArrayView2<'c, f64>, ndarray::ArrayView1<'c, f64>, MockError, Object = MockModel>,
+{
     guarded(|| {
-        let r: Result<Array1<f64>, MockError> = ds.cross_validate_single(c.k, &params, |pred: &Array1<f64>, truth: &ndarray::ArrayView1<f64>| {
+        let r: Result<Array1<f64>, MockError> = ds.cross_validate_single(c.k, params, |pred: &Array1<f64>, truth: &ndarray::ArrayView1<f64>| {
             let v = eval_body(c, fault, eval_log, rows_f64(pred), rows_f64(truth))?;
             Ok(v[0])
         });
@@ -1092,8 +1205,45 @@ fn cv_single_call<D: DataMut<Elem = f64>, S: DataMut<Elem = f64>>(
     })
 }
 
+fn cv_single_call<D: DataMut<Elem = f64>, S: DataMut<Elem = f64>>(
+    ds: &mut DatasetBase<ArrayBase<D, Ix2>, ArrayBase<S, Ix1>>,
+    c: &Case,
+    fault: &FaultSpec,
+    guard: &[u8],
+    fit_log: &Rc<RefCell<Vec<FitCall>>>,
+    eval_log: &EvalLog,
+) -> CvOutcome {
+    if c.guarded {
+        let params = make_guarded(c, fault, guard, fit_log);
+        cv_single_call_with(ds, c, fault, &params, eval_log)
+    } else {
+        let params = make_params(c, fault, fit_log);
+        cv_single_call_with(ds, c, fault, &params, eval_log)
+    }
+}
+
+/// (fault, guard assignment) combinations of a cross-validation group.
+fn cv_combos(c: &Case) -> Vec<(FaultSpec, Vec<u8>)> {
+    if c.guarded {
+        let guards = match &c.guard {
+            Some(g) => vec![g.clone()],
+            None => guard_menu(c.m),
+        };
+        guards.into_iter().map(|g| (c.fault.clone().unwrap_or_else(FaultSpec::none), g)).collect()
+    } else {
+        let faults = match &c.fault {
+            Some(f) => vec![f.clone()],
+            None => fault_menu(c),
+        };
+        faults.into_iter().map(|f| (f, Vec::new())).collect()
+    }
+}
+
 fn fault_menu(c: &Case) -> Vec<FaultSpec> {
     let mut v = vec![FaultSpec::none()];
+    if c.m == 0 {
+        return v; // an empty candidate slice: nothing can fail
+    }
     if c.menu == "short" {
         v.push(FaultSpec { kind: "fit".into(), model: c.m - 1, fold: 0, model2: 0, fold2: 0 });
         v.push(FaultSpec { kind: "eval".into(), model: 0, fold: c.k - 1, model2: 0, fold2: 0 });
@@ -1122,12 +1272,22 @@ fn expected_errors(fault: &FaultSpec) -> Vec<String> {
 }
 
 #[allow(clippy::too_many_arguments)]
-fn check_cv(op: &str, c: &Case, fault: &FaultSpec, rf: &Ref, exp: &CvExpect, out: CvOutcome, fits: &[FitCall], evals: &[(Vec<Vec<u64>>, Vec<Vec<u64>>)], before: &Part, after: &Part, viols: &mut Vec<Violation>, cnt: &mut Counters) {
+fn check_cv(op: &str, c: &Case, fault: &FaultSpec, guard: &[u8], rf: &Ref, exp: &CvExpect, out: CvOutcome, fits: &[FitCall], evals: &[(Vec<Vec<u64>>, Vec<Vec<u64>>)], before: &Part, after: &Part, viols: &mut Vec<Violation>, cnt: &mut Counters) {
     let mut cc = c.clone();
     cc.fault = Some(fault.clone());
+    if c.guarded {
+        cc.guard = Some(guard.to_vec());
+    }
     let cj = case_json(&cc);
-    let head = format!("{}(k={}) n={} f={} targets {}-d x{} ({}), {} models ({}), eval '{}', fault {:?}", op, c.k, c.n, c.f, c.tix, c.tcols, c.kind, c.m, if c.styles.is_empty() { "full" } else { c.styles.as_str() }, c.eval, fault.kind);
-    let want_err = expected_errors(fault);
+    let head = format!(
+        "{}(k={}) n={} f={} targets {}-d x{} ({}), {} models ({}{}), eval '{}', fault {:?}",
+        op, c.k, c.n, c.f, c.tix, c.tcols, c.kind, c.m,
+        if c.styles.is_empty() { "full" } else { c.styles.as_str() },
+        if c.guarded { format!(", unchecked parameters with check codes {:?}", guard) } else { String::new() },
+        c.eval, fault.kind
+    );
+    let mut want_err = expected_errors(fault);
+    want_err.extend(guard_errors(guard));
     let mut ok_result = false;
     match out {
         Err(p) => viols.push(Violation::new(format!("{}.panic", op), format!("{} panicked: {}", head, p), cj.clone())),
@@ -1260,25 +1420,25 @@ fn check_cv(op: &str, c: &Case, fault: &FaultSpec, rf: &Ref, exp: &CvExpect, out
 fn run_cv<I: TargetDim>(c: &Case, viols: &mut Vec<Violation>, cnt: &mut Counters) {
     let rf = Ref::new::<f64, f64>(c);
     let exp = ref_cv(&rf, c);
-    let faults = match &c.fault {
-        Some(f) => vec![f.clone()],
-        None => fault_menu(c),
-    };
-    for fault in faults.iter() {
+    for (fault, guard) in cv_combos(c).iter() {
         with_mut_dataset!(f64, f64, I, c, "cross_validate", viols, |ds| {
             cnt.evals += 1;
             cnt.nontrivial += 1;
-            cnt.bump(&format!("cv_runs_fault_{}", fault.kind), 1);
+            if c.guarded {
+                cnt.bump(&format!("cv_runs_unchecked_params_{}", if guard.iter().any(|&g| g != 0) { "failing_check" } else { "valid" }), 1);
+            } else {
+                cnt.bump(&format!("cv_runs_fault_{}", fault.kind), 1);
+            }
             let before = part_of(&ds.records, &ds.targets);
             let fit_log = Rc::new(RefCell::new(Vec::new()));
             let eval_log: EvalLog = RefCell::new(Vec::new());
-            let out = cv_call(ds, c, fault, &fit_log, &eval_log);
+            let out = cv_call(ds, c, fault, guard, &fit_log, &eval_log);
             let after = part_of(&ds.records, &ds.targets);
             let fits = fit_log.borrow();
             let evals = eval_log.borrow();
             cnt.bump("cv_fit_calls_observed", fits.len() as u64);
             cnt.bump("cv_eval_calls_observed", evals.len() as u64);
-            check_cv("cross_validate", c, fault, &rf, &exp, out, &fits, &evals, &before, &after, viols, cnt);
+            check_cv("cross_validate", c, fault, guard, &rf, &exp, out, &fits, &evals, &before, &after, viols, cnt);
         });
     }
 }
@@ -1286,25 +1446,118 @@ fn run_cv<I: TargetDim>(c: &Case, viols: &mut Vec<Violation>, cnt: &mut Counters
 fn run_cv_single(c: &Case, viols: &mut Vec<Violation>, cnt: &mut Counters) {
     let rf = Ref::new::<f64, f64>(c);
     let exp = ref_cv(&rf, c);
-    let faults = match &c.fault {
-        Some(f) => vec![f.clone()],
-        None => fault_menu(c),
-    };
-    for fault in faults.iter() {
+    for (fault, guard) in cv_combos(c).iter() {
         with_mut_dataset!(f64, f64, Ix1, c, "cross_validate_single", viols, |ds| {
             cnt.evals += 1;
             cnt.nontrivial += 1;
-            cnt.bump(&format!("cv_single_runs_fault_{}", fault.kind), 1);
+            if c.guarded {
+                cnt.bump(&format!("cv_single_runs_unchecked_params_{}", if guard.iter().any(|&g| g != 0) { "failing_check" } else { "valid" }), 1);
+            } else {
+                cnt.bump(&format!("cv_single_runs_fault_{}", fault.kind), 1);
+            }
             let before = part_of(&ds.records, &ds.targets);
             let fit_log = Rc::new(RefCell::new(Vec::new()));
             let eval_log: EvalLog = RefCell::new(Vec::new());
-            let out = cv_single_call(ds, c, fault, &fit_log, &eval_log);
+            let out = cv_single_call(ds, c, fault, guard, &fit_log, &eval_log);
             let after = part_of(&ds.records, &ds.targets);
             let fits = fit_log.borrow();
             let evals = eval_log.borrow();
             cnt.bump("cv_fit_calls_observed", fits.len() as u64);
             cnt.bump("cv_eval_calls_observed", evals.len() as u64);
-            check_cv("cross_validate_single", c, fault, &rf, &exp, out, &fits, &evals, &before, &after, viols, cnt);
+            check_cv("cross_validate_single", c, fault, guard, &rf, &exp, out, &fits, &evals, &before, &after, viols, cnt);
+        });
+    }
+}
+
+// ------------------------------------------------------------------------------------------------
+// iter_fold whose closure fits UNCHECKED parameters (blanket Fit of ParamGuard)
+// ------------------------------------------------------------------------------------------------
+
+fn run_iter_fold_guard<I: TargetDim>(c: &Case, viols: &mut Vec<Violation>, cnt: &mut Counters) {
+    let rf = Ref::new::<f64, f64>(c);
+    let folds = ref_kfold(c.n, c.k);
+    let guards: Vec<Vec<u8>> = match &c.guard {
+        Some(g) => vec![g.clone()],
+        None => vec![vec![0], vec![1], vec![2]],
+    };
+    for guard in guards.iter() {
+        let mut cc = c.clone();
+        cc.guard = Some(guard.clone());
+        let cj = case_json(&cc);
+        let mut c1 = c.clone();
+        c1.m = 1;
+        with_mut_dataset!(f64, f64, I, c, "iter_fold", viols, |ds| {
+            cnt.evals += 1;
+            cnt.nontrivial += 1;
+            cnt.bump(&format!("iter_fold_runs_unchecked_params_{}", if guard[0] != 0 { "failing_check" } else { "valid" }), 1);
+            let before = part_of(&ds.records, &ds.targets);
+            let fit_log = Rc::new(RefCell::new(Vec::new()));
+            let params = make_guarded(&c1, &FaultSpec::none(), guard, &fit_log);
+            let gp = &params[0];
+            let res = guarded(|| {
+                ds.iter_fold(c.k, |train| {
+                    let r: Result<MockModel, MockError> = gp.fit(train);
+                    r.map(|m| m.fp).map_err(|e| format!("{:?}", e))
+                })
+                .map(|(r, valid)| (r, part_of(valid.records(), valid.targets())))
+                .collect::<Vec<_>>()
+            });
+            let after = part_of(&ds.records, &ds.targets);
+            let want = guard_errors(guard);
+            match res {
+                Err(p) => viols.push(Violation::new("iter_fold.panic", format!("iter_fold({}) on {} samples fitting unchecked parameters panicked: {}", c.k, c.n, p), cj.clone())),
+                Ok(list) => {
+                    if list.len() != c.k {
+                        viols.push(Violation::new("iter_fold.wrong_fold_count", format!("iter_fold({}) on {} samples yielded {} pairs", c.k, c.n, list.len()), cj.clone()));
+                    }
+                    for (i, (r, valid)) in list.iter().enumerate().take(c.k) {
+                        match (r, want.first()) {
+                            (Err(e), Some(w)) if e == w => cnt.bump("iter_fold_check_errors_surfaced", 1),
+                            (Err(e), Some(w)) => {
+                                viols.push(Violation::new(
+                                    "iter_fold.unchecked_params.wrong_error",
+                                    format!("n={} k={} fold {}: fitting parameters whose check fails gave Err({}), expected exactly Err({})", c.n, c.k, i, e, w),
+                                    cj.clone(),
+                                ));
+                                break;
+                            }
+                            (Ok(_), Some(w)) => {
+                                viols.push(Violation::new(
+                                    "iter_fold.unchecked_params.error_swallowed",
+                                    format!("n={} k={} fold {}: fitting parameters whose check fails gave Ok, expected Err({})", c.n, c.k, i, w),
+                                    cj.clone(),
+                                ));
+                                break;
+                            }
+                            (Err(e), None) => {
+                                viols.push(Violation::new("iter_fold.unchecked_params.unexpected_error", format!("n={} k={} fold {}: valid parameters gave Err({})", c.n, c.k, i, e), cj.clone()));
+                                break;
+                            }
+                            (Ok(fp), None) => {
+                                let want_fp = folds[i].0.iter().fold(0u64, |a, &id| a.wrapping_add(fp_row(&rf.rec[id], &rf.tgt[id])));
+                                if *fp != want_fp {
+                                    viols.push(Violation::new(
+                                        "iter_fold.unchecked_params.model_fitted_on_wrong_rows",
+                                        format!("n={} k={} fold {}: the model paired with validation block {} was not fitted on that block's complement", c.n, c.k, i, i),
+                                        cj.clone(),
+                                    ));
+                                    break;
+                                }
+                            }
+                        }
+                        match rf.decode(valid) {
+                            Ok(ids) if ids == folds[i].1 => {}
+                            _ => {
+                                viols.push(Violation::new("iter_fold.validation_block_wrong", format!("n={} k={} fold {}: validation view is not block {}", c.n, c.k, i, i), cj.clone()));
+                                break;
+                            }
+                        }
+                    }
+                }
+            }
+            if after != before {
+                viols.push(Violation::new(restored_sig("iter_fold", &before, &after), format!("after iter_fold({}) fitting unchecked parameters the dataset is not in its original order", c.k), cj.clone()));
+            }
         });
     }
 }
@@ -1365,7 +1618,7 @@ fn run_degenerate<I: TargetDim>(c: &Case, viols: &mut Vec<Violation>, cnt: &mut 
             cnt.evals += 1;
             let fit_log = Rc::new(RefCell::new(Vec::new()));
             let eval_log: EvalLog = RefCell::new(Vec::new());
-            let out = cv_call(ds, c2, &FaultSpec::none(), &fit_log, &eval_log);
+            let out = cv_call(ds, c2, &FaultSpec::none(), &[], &fit_log, &eval_log);
             let tag = match out {
                 Err(_) => "panicked",
                 Ok(Err(_)) => "returned_err",
@@ -1417,6 +1670,8 @@ fn run_case_inner(c: &Case, viols: &mut Vec<Violation>) -> Counters {
         ("cv", "f64/f64", 1) => run_cv::<Ix1>(c, viols, &mut cnt),
         ("cv", "f64/f64", 2) => run_cv::<Ix2>(c, viols, &mut cnt),
         ("cv_single", "f64/f64", 1) => run_cv_single(c, viols, &mut cnt),
+        ("iter_fold_guard", "f64/f64", 1) => run_iter_fold_guard::<Ix1>(c, viols, &mut cnt),
+        ("iter_fold_guard", "f64/f64", 2) => run_iter_fold_guard::<Ix2>(c, viols, &mut cnt),
         ("degenerate", "f64/f64", 1) => run_degenerate::<Ix1>(c, viols, &mut cnt),
         ("degenerate", "f64/f64", 2) => run_degenerate::<Ix2>(c, viols, &mut cnt),
         _ => panic!("bad case {:?}", c),
@@ -1455,8 +1710,10 @@ fn main() {
          fold on owned / view / row-strided view (poison rows between) / column-sliced view / column-major owned / reversed-row view of a reversed copy / transposed view of a feature-major array / \
          owned array sliced out of a larger allocation by rows (standard layout, offset start, with sliced weights) and by columns; iter_fold on owned / ArrayViewMut / ArrayViewMut window with guard rows / \
          owned row-slice of a larger allocation (in domain: guard elements of the allocation and the weights must stay untouched) + row-strided, column-major, reversed, transposed, column-sliced storage for the documented panic, \
+         + 4, 5, 7, 9 features on standard / windowed / strided storage and a reversed feature axis (reversed target columns, reversed 1-d targets), \
          element types f64/f64 and f32/u32, iterator consumed completely and dropped unconsumed; \
-         cross_validate (all target shapes) and cross_validate_single (1-d) on the three contiguous kinds x 1..3 mock models x 4 evaluation closures x the fault menu (+ the owned row-slice kind with 'mae' and 1 / 3 models; + model styles 'mixed' (model 0 overwrites every prediction, the others only the rows their rule fires for, keeping their own model-specific column-major default_target elsewhere) and 'all_sparse' with 'mae' / 'colsum' and the short fault menu) \
+         cross_validate (all target shapes) and cross_validate_single (1-d) on the three contiguous kinds x 1..3 mock models x 4 evaluation closures x the fault menu (+ the owned row-slice kind with 'mae' and 1 / 3 models; + model styles 'mixed' (model 0 overwrites every prediction, the others only the rows their rule fires for, keeping their own model-specific column-major default_target elsewhere) and 'all_sparse' with 'mae' / 'colsum' and the short fault menu; + an empty candidate slice (m = 0); + candidate slices of UNCHECKED hyper-parameter sets (ParamGuard, blanket Fit) with every model position valid / failing with either of two check errors / one double failure, \
+         through cross_validate, cross_validate_single and an iter_fold closure) \
          (none; fit error of every model at every fold; eval error for every model at every fold; one double fault; for n > {full_menu_n} the closures other than 'mae' get the short menu: none, fit error of the last model at fold 0, eval error for model 0 at the last fold, the double fault); degenerate k in {{0, 1, n+1, n+2}} for documented behaviour only. \
          size family: n in {{1025}} (quick) / {{1025, 4097}} (thorough) x k in {{2, 3, 7, 1024, n}}, 3 features (17 for two extra groups), 1-d and 2-d x2 targets, fold / iter_fold / cross_validate(_single) (1 model, 'mae', short fault menu) \
          on standard, strided, column-major, transposed, reversed and sliced-owned storage through the same partition oracle (k = n = 4097: 1 feature, 1-d targets, fresh owned arrays only). \
@@ -1471,13 +1728,14 @@ fn main() {
     ctx.assume("with a double fault either injected error is accepted; which fold's error surfaces first is not specified");
     ctx.assume("k = 0, k = 1, k > n and non-standard layouts are outside the statement: iter_fold's documented panics / validity are checked, fold and cross_validate outcomes are only recorded");
     ctx.assume("the predictions an evaluation sees for model j must equal model_j.predict(validation records) as recomputed by the harness, including the rows a sparse model leaves at its own default_target value");
+    ctx.assume("unchecked parameters: the candidate models of these runs get Fit from linfa's blanket impl for ParamGuard; a failing check must surface as exactly MockError::Param(that ParamError) (written down absolutely; From<ParamError> and From<linfa::Error> give different variants); with two failing models either error is accepted");
     ctx.assume("layouts: every storage kind is judged by the same layout-free reference (sharper than comparing with the standard-layout run); a failure of a non-plain kind whose standard-layout twin passes is additionally reported as <op>.layout_dependence");
     ctx.assume("trusted base: ndarray (views, slicing, is_standard_layout), serde_json");
 
     // ---------------- enumerate ----------------
     let mut cases: Vec<Case> = Vec::new();
     let base = |op: &str, n, k, f, tix, tcols, kind: &str, elem: &str| Case {
-        op: op.into(), n, k, f, tix, tcols, kind: kind.into(), elem: elem.into(), m: 0, eval: String::new(), fault: None, menu: String::new(), styles: String::new(), consume: None,
+        op: op.into(), n, k, f, tix, tcols, kind: kind.into(), elem: elem.into(), m: 0, eval: String::new(), fault: None, menu: String::new(), guarded: false, guard: None, styles: String::new(), consume: None,
     };
     for n in 1..=nmax {
         for k in 2..=n {
@@ -1503,6 +1761,36 @@ fn main() {
                                 c.op = "cv_single".into();
                                 cases.push(c);
                             }
+                        }
+                    }
+                    // candidate models that are UNCHECKED hyper-parameter sets (blanket Fit of ParamGuard):
+                    // valid / failing check at every model position, for cross validation and iter_fold
+                    for kind in ["owned", "viewmut_window"] {
+                        for m in 1..=3 {
+                            let mut c = base("cv", n, k, f, tix, tcols, kind, "f64/f64");
+                            c.m = m;
+                            c.eval = "mae".into();
+                            c.guarded = true;
+                            cases.push(c.clone());
+                            if tix == 1 {
+                                c.op = "cv_single".into();
+                                cases.push(c);
+                            }
+                        }
+                        let mut c = base("iter_fold_guard", n, k, f, tix, tcols, kind, "f64/f64");
+                        c.guarded = true;
+                        cases.push(c);
+                    }
+                    // an empty candidate slice
+                    {
+                        let mut c = base("cv", n, k, f, tix, tcols, "owned", "f64/f64");
+                        c.m = 0;
+                        c.eval = "mae".into();
+                        c.menu = "short".into();
+                        cases.push(c.clone());
+                        if tix == 1 {
+                            c.op = "cv_single".into();
+                            cases.push(c);
                         }
                     }
                     // models that do not overwrite every prediction / have their own default_target
@@ -1541,6 +1829,19 @@ fn main() {
                                 }
                             }
                         }
+                    }
+                }
+            }
+        }
+        // wider records: 4, 5, 7, 9 features on standard, windowed and reversed-feature-axis storage
+        for k in 2..=n {
+            for f in [4usize, 5, 7, 9] {
+                for &(tix, tcols) in [(1usize, 1usize), (2, 2)].iter() {
+                    for kind in ["owned", "view_reversed_cols", "view_strided"] {
+                        cases.push(base("fold", n, k, f, tix, tcols, kind, "f64/f64"));
+                    }
+                    for kind in ["owned", "viewmut_window", "viewmut_reversed_cols"] {
+                        cases.push(base("iter_fold", n, k, f, tix, tcols, kind, "f64/f64"));
                     }
                 }
             }
